@@ -474,7 +474,7 @@ func runC01(w *World, r *Report) {
 				var skipEdges []Edge
 				instrsOf(fn, func(in ssa.Instruction) {
 					if l, ok := in.(*ssa.Lookup); ok && l.CommaOk && item != nil && sameVal(l.Index, item) {
-						if _, isLocal := strip(l.X).(*ssa.MakeMap); isLocal {
+						if visitedSetIsLocal(fn, l.X) {
 							for _, ref := range *l.Referrers() {
 								if e, ok := ref.(*ssa.Extract); ok && e.Index == 1 {
 									skipEdges = append(skipEdges, trueEdges(fn, e)...)
